@@ -323,6 +323,8 @@ func length_(computer *ComputedStyle, value pr.DimOrS, fontSize pr.Float, pixels
 		// Convert absolute lengths to pixels
 		result = value.Value * pr.LengthsToPixels[unit]
 	case pr.Em, pr.Ex, pr.Ch, pr.Rem:
+		// [fontSize] is only given when computing the font-size property itself
+		isFontSizeProperty := fontSize >= 0
 		if fontSize < 0 {
 			fontSize = computer.GetFontSize().Value
 		}
@@ -340,7 +342,13 @@ func length_(computer *ComputedStyle, value pr.DimOrS, fontSize pr.Float, pixels
 		case pr.Em:
 			result = value.Value * fontSize
 		case pr.Rem:
-			result = value.Value * computer.rootStyle.fontSize.Value
+			rootFontSize := computer.rootStyle.fontSize.Value
+			if computer.isRootElement() && !isFontSizeProperty {
+				// on the root element, rem refers to the initial value
+				// for the font-size property only
+				rootFontSize = fontSize
+			}
+			result = value.Value * rootFontSize
 		}
 
 	default:
@@ -749,6 +757,11 @@ func fontSize(computer *ComputedStyle, _ pr.KnownProp, _value pr.CssProperty) pr
 // Compute the “font-weight“ property.
 func fontWeight(computer *ComputedStyle, _ pr.KnownProp, _value pr.CssProperty) pr.CssProperty {
 	value := _value.(pr.IntString)
+	// the root element has no parent: it inherits the initial value
+	parentValue := pr.InitialValues.GetFontWeight().Int
+	if computer.parentStyle != nil {
+		parentValue = computer.parentStyle.GetFontWeight().Int
+	}
 	var out int
 	switch value.String {
 	case "normal":
@@ -756,10 +769,8 @@ func fontWeight(computer *ComputedStyle, _ pr.KnownProp, _value pr.CssProperty) 
 	case "bold":
 		out = 700
 	case "bolder":
-		parentValue := computer.parentStyle.GetFontWeight().Int
 		out = fontWeightRelative.bolder[parentValue]
 	case "lighter":
-		parentValue := computer.parentStyle.GetFontWeight().Int
 		out = fontWeightRelative.lighter[parentValue]
 	default:
 		out = value.Int
